@@ -97,8 +97,9 @@ class CheckResult:
             "wall_s": round(wall, 2),
             "violations": len(self.violations),
         }
-        with open(os.path.join(EVIDENCE_DIR, self.prop + ".json"), "w") as fh:
-            json.dump(ev, fh, indent=1, default=str)
+        if not os.environ.get("ICV_NO_EVIDENCE"):
+            with open(os.path.join(EVIDENCE_DIR, self.prop + ".json"), "w") as fh:
+                json.dump(ev, fh, indent=1, default=str)
         for h in self.known_hits:
             print("KNOWN-FINDING: property={} {}".format(self.prop, h["what"]))
         for n in self.notes[:15]:
